@@ -186,6 +186,15 @@ _WREQ = ["From Coq Require Import List NArith Bool.", "From Coq.Strings Require 
          "From MS Require Import Base.Bytes Base.Outcome Base.Prog Webp.Container Webp.Grammar Webp.ContainerProofsAllow Props.C14c.",
          "Open Scope N_scope."]
 REQUIRES_FOR = {n: _WREQ for n in ("C14_unknown_chunks_only", "C14_unknown_chunks_only_any_reader", "C14_known_chunk_never_out_of_place", "C14_unsupported_chunk_names_unknown")}
+# the known chunk names of the two trailing-chunk loops, regenerated from webpsan/src/lib.rs (Gen/WebpKnown.v; Props/C14k.v)
+_KREQ = ["From Coq Require Import List NArith Bool.", "From Coq.Strings Require Import Byte.",
+         "From MS Require Import Base.Bytes Base.Outcome Base.Prog Webp.Container Gen.WebpKnown Props.C14k.", "Import ListNotations."]
+THEOREMS.append(("C14_known_names_file_are_source", "forall n : bytes, known_after_image n || teq n ANMF = existsb (teq n) KNOWN_TRAILING_FILE_SRC"))
+THEOREMS.append(("C14_known_names_frame_are_source", "forall n : bytes, known_after_image n || teq n ANMF = existsb (teq n) KNOWN_TRAILING_FRAME_SRC"))
+REQUIRES_FOR["C14_known_names_file_are_source"] = _KREQ
+REQUIRES_FOR["C14_known_names_frame_are_source"] = _KREQ
+COQ_TARGETS = COQ_TARGETS + ["theories/Props/C14k.vo"]
+COQCHK = COQCHK + ["MS.Props.C14k"]
 TRUSTED = fam.TRUSTED_COMMON + ["axioms: none (Print Assumptions of every theorem = Closed under the global context)",
                                 "part (c): hand-written model Webp/Container.v and grammar Webp/Grammar.v (see C06), harness/src/webp.rs, ocaml/webp.ml"]
 ASSUMPTIONS = fam.ASSUMPTIONS_COMMON + [
